@@ -1,10 +1,15 @@
 #!/bin/sh
-# Runs every claimed check (tier $1, default quick) in parallel and prints one line each.
+# Runs every claimed check (tier $1, default quick) and prints one line each.
+# quick: all in parallel; thorough: three at a time (each thorough run already uses 8 child processes).
 cd "$(dirname "$0")"
 tier="${1:-quick}"
 ids=$(python3 -c "import json;print(' '.join(c['property_id'] for c in json.load(open('MANIFEST.json'))['checks']))")
-rc=0
+width=20
+[ "$tier" = "thorough" ] && width=3
+n=0
 for id in $ids; do
   ( out=$(./run.sh "$id" "$tier" 2>&1); code=$?; echo "$out" | grep -E "^($id |VIOLATION|WARNING)" | sed "s/^/[$code] /" ) &
+  n=$((n+1))
+  if [ $((n % width)) -eq 0 ]; then wait; fi
 done
 wait
